@@ -1294,6 +1294,9 @@ export class TupleRuntype extends BaseRuntype {
           popPath(ctx);
         }
       }
+    } else if (input.length > idx) {
+      // validate() rejects surplus items of a tuple without rest element: report them too
+      acc.push(...buildError(ctx, `expected tuple with ${idx} items`, input));
     }
 
     return acc;
